@@ -224,8 +224,6 @@ where
     out.push_str(&taps.iter().map(|t| show_vec(t.view.iter())).collect::<Vec<_>>().join("/"));
     let mut src = vs.clone();
     let mut src_ok = true;
-    let cw = Arc::new(CountWaker(AtomicUsize::new(0)));
-    let waker = Waker::from(cw.clone());
     // oracle for the initial values
     let check = |taps: &Vec<TapInfo>, params: &Vec<Option<usize>>, src: &Vector<u32>, src_ok: bool| -> String {
         let mut below: Vec<u32> = src.iter().copied().collect();
@@ -249,6 +247,8 @@ where
         }
         out.push_str(" ; ");
         if *ev == "D" {
+            // a fresh waker for every drain (see m_adapt.rs): every leaf must hold THIS one at Pending
+            let waker = Waker::from(Arc::new(CountWaker(AtomicUsize::new(0))));
             let mut count = 0;
             let mut end = 'P';
             loop {
